@@ -297,21 +297,95 @@ func (d *drv) runAddr(r *Rng, n int) {
 			}
 			pk = priv.PubKey().Bytes()
 		}
-		pub := &ethsecp256k1.PubKey{Key: pk}
-		got := pub.Address().Bytes()
-		p := ecDecompress(pk)
-		var want, xy []byte
-		if p != nil {
-			xy = append(pad32(p.x), pad32(p.y)...)
-			want = keccak(xy)[12:]
+		d.addrCase(pk, kind, "")
+	}
+	d.runAddrFamilies(r.Fork(909090), n)
+}
+
+// addrCase: PubKey.Address of one key against the independent computation (own decompression + keccak), as an
+// oracle and as a model case.  after = which related key was asked just before in this process ("" = none).
+func (d *drv) addrCase(pk []byte, kind, after string) {
+	pub := &ethsecp256k1.PubKey{Key: pk}
+	got := pub.Address().Bytes()
+	p := ecDecompress(pk)
+	var want, xy []byte
+	if p != nil {
+		xy = append(pad32(p.x), pad32(p.y)...)
+		want = keccak(xy)[12:]
+	}
+	if !bytes.Equal(got, want) {
+		sig := "C19/crypto/address/not-last-20-bytes-of-keccak-of-uncompressed-key"
+		if after != "" {
+			sig += "/" + kind + "-after-" + after
 		}
-		if !bytes.Equal(got, want) {
-			d.side.Hit("C19/crypto/address/not-last-20-bytes-of-keccak-of-uncompressed-key",
-				"PubKey.Address differs from the last 20 bytes of keccak256(X||Y)", map[string]interface{}{"pk": hx(pk), "got": hx(got), "want": hx(want)})
-		}
-		d.add(fmt.Sprintf("(CAddr %s %s)", cqOptBytes(xy, p != nil), cqBytes(got)), "addr/"+hx(pk), p != nil,
-			map[string]interface{}{"kind": "address", "pk": hx(pk), "address": hx(got)})
+		d.side.Hit(sig, "PubKey.Address differs from the last 20 bytes of keccak256(X||Y)", map[string]interface{}{"pk": hx(pk), "got": hx(got), "want": hx(want), "kind": kind, "asked_after": after})
+	}
+	canon := "addr/" + hx(pk)
+	if after != "" {
+		canon += "/" + kind + "-after-" + after
+	}
+	d.add(fmt.Sprintf("(CAddr %s %s)", cqOptBytes(xy, p != nil), cqBytes(got)), canon, p != nil,
+		map[string]interface{}{"kind": "address", "family": kind, "asked_after": after, "pk": hx(pk), "address": hx(got)})
+	if after != "" {
+		d.side.Count("address-family:" + kind + "-after-" + after + fmt.Sprintf(":valid=%v", p != nil))
+	} else {
 		d.side.Count("address:" + kind + fmt.Sprintf(":valid=%v", p != nil))
+	}
+}
+
+// runAddrFamilies: the address definition on RELATED keys within one process, in both orders: a key P and its mirror
+// -P (same X, other parity byte; private key n-d), the same key twice, the X coordinate under invalid format bytes
+// (0x00 0x01 0x04 0x05 0x06 0x07), valid keys that differ from P in one bit of X (sharing all other bytes), and keys
+// whose X is P's X shifted by a byte (shared prefix / suffix).  Whatever the implementation remembers between calls
+// must not show.
+func (d *drv) runAddrFamilies(r *Rng, n int) {
+	m := n/3 + 4
+	for i := 0; i < m; i++ {
+		rr := r.Fork(uint64(i))
+		priv := newKey(rr)
+		dk := new(bigInt).SetBytes(priv.Key)
+		neg := &ethsecp256k1.PrivKey{Key: pad32(new(bigInt).Sub(ecN, dk))}
+		P := priv.PubKey().Bytes()
+		Pm := neg.PubKey().Bytes() // -P
+		mirror := append([]byte{P[0] ^ 1}, P[1:]...)
+		if !bytes.Equal(mirror, Pm) {
+			d.side.Hit("C19/crypto/address/public-key-of-negated-private-key-is-not-the-mirror-key", "PubKey of n-d is not (X, -Y)", map[string]interface{}{"P": hx(P), "minusP": hx(Pm)})
+		}
+		first, second := P, Pm
+		a, b := "P", "minusP"
+		if i%2 == 1 { // the other order
+			first, second = Pm, P
+			a, b = "minusP", "P"
+		}
+		d.addrCase(first, a, "fresh")
+		d.addrCase(second, b, a)
+		d.addrCase(first, a, b)
+		d.addrCase(first, a, "itself")
+		for _, fb := range []byte{0x00, 0x01, 0x04, 0x05, 0x06, 0x07} {
+			bad := append([]byte{fb}, P[1:]...)
+			d.addrCase(bad, fmt.Sprintf("format-byte-%02x", fb), "P")
+		}
+		// invalid format byte FIRST for a fresh key, then the valid key
+		q := newKey(rr).PubKey().Bytes()
+		d.addrCase(append([]byte{0x05}, q[1:]...), "format-byte-05", "fresh")
+		d.addrCase(q, "P", "format-byte-05")
+		// neighbours in X: one bit flipped (valid with probability 1/2 each), all other bytes shared
+		found := 0
+		for bit := 0; bit < 64 && found < 2; bit++ {
+			pos := 8 + (rr.Intn(31*8)+bit)%(32*8)
+			nb := flipBit(P, pos)
+			if ecDecompress(nb) != nil {
+				found++
+				d.addrCase(nb, "x-bit-neighbour", "P")
+			}
+		}
+		// X shifted by one byte: shares a 31-byte run with P
+		for _, sh := range [][]byte{append(append([]byte{P[0]}, P[2:]...), 0x01), append([]byte{P[0], 0x01}, P[1:32]...)} {
+			d.addrCase(sh, "x-shifted", "P")
+		}
+		// truncated / extended
+		d.addrCase(P[:32], "short", "P")
+		d.addrCase(append(append([]byte{}, P...), 0), "long", "P")
 	}
 }
 
